@@ -92,14 +92,17 @@ def check_case(case, ctx):
             "magic_pe": par["magic_pe"],
             "prepend_append": (prepend or None, (append if (append or par["nulpad"]) else None)),
         }
+        # the caller may widen the search range for the image start (stages with more than 1 KiB of prepended bytes): every
+        # helper honours it alike
+        kw = {"maxrange": par["maxrange"]} if par.get("maxrange") else {}
         try:
             got = {
-                "mz_offset": pe.find_mz_offset(fh),
-                "architecture": pe.find_architecture(fh),
-                "compile_stamps": tuple(pe.find_compile_stamps(fh)),
-                "magic_mz": pe.find_magic_mz(fh),
-                "magic_pe": pe.find_magic_pe(fh),
-                "prepend_append": tuple(pe.find_stage_prepend_append(fh)),
+                "mz_offset": pe.find_mz_offset(fh, **kw),
+                "architecture": pe.find_architecture(fh, **kw),
+                "compile_stamps": tuple(pe.find_compile_stamps(fh, **kw)),
+                "magic_mz": pe.find_magic_mz(fh, **kw),
+                "magic_pe": pe.find_magic_pe(fh, **kw),
+                "prepend_append": tuple(pe.find_stage_prepend_append(fh, **kw)),
             }
         except Exception as e:  # noqa: BLE001
             ctx.violation("pe.artifacts", f"{type(e).__name__}: {e}", case)
@@ -108,7 +111,7 @@ def check_case(case, ctx):
         if bad:
             ctx.violation("pe.artifacts", "; ".join(f"{k}: reported {core.short(g, 60)!r}, image has {core.short(w, 60)!r}" for k, (g, w) in bad.items()), case)
             return
-        if par["data"]:
+        if par["data"] and not par.get("maxrange"):
             ctx.mon("pe.via_config")
             try:
                 c = beacon.BeaconConfig.from_bytes(wire)
@@ -130,7 +133,7 @@ def check_case(case, ctx):
             ctx.mon("version.precedence")
         nt = bool(prepend or append or par["xorenc"] or par["magic_mz"] != b"MZ" or par["magic_pe"] != b"PE" or par["export_section"] is not None)
         ctx.ok(fp=wire, nontrivial=nt, case={"op": "image", "params": {k: v for k, v in par.items() if k != "data"}, "config_embedded": bool(par["data"])},
-               classes=(f"arch:{par['arch']}", f"xorenc:{par['xorenc']}", f"prepend:{'0' if not prepend else '1-899' if len(prepend) < 900 else '900'}",
+               classes=(f"arch:{par['arch']}", f"xorenc:{par['xorenc']}", f"prepend:{'0' if not prepend else '1-899' if len(prepend) < 900 else '900' if len(prepend) == 900 else '>=1024+maxrange'}",
                         f"append:{'none' if not append else 'some'}", f"export:{'none' if par['export_section'] is None else 'sec%d' % min(par['export_section'], par['nsec'] - 1)}",
                         f"nsec:{par['nsec']}", f"magic_mz:{len(par['magic_mz'])}", f"magic_pe:{len(par['magic_pe'])}",
                         f"vsize:{par['vsize_mode']}", "export:section-start" if par["export_at_start"] and par["export_section"] is not None else "export:inside",
@@ -284,6 +287,9 @@ def gen_image(rng, version):
         append = b""
         extra["lfanew"] = rng.choice([64, 0x80])
     xorenc = rng.random() < 0.35 and "fileobj" not in extra
+    if not xorenc and "sec_raw" not in extra and rng.random() < 0.08:
+        prepend = b"\x90" * rng.choice([1024, 1500, 3000])
+        extra["maxrange"] = len(prepend) + rng.choice([1, 64, 1000])
     return {
         **extra,
         "arch": arch, "lfanew": extra.get("lfanew") or rng.choice([64, 0x80, 0xF8, 1000, rng.randrange(64, 1001), rng.randrange(64, 260), rng.choice([172, 176, 183, 198, 0xE8])]),
@@ -350,6 +356,8 @@ def run_shard(shard, ctx):
             check_case({"op": "vstring", "text": text}, ctx)
         for text in ("Unknown", "", "Cobalt Strike", "Cobalt Strike 4 (Jan 01, 2020)", "cobalt strike 4.5 (Dec 14, 2021)"):
             check_case({"op": "vstring", "text": text}, ctx)
+        # the tables once more, after all these lookups (known and unknown keys): lookups do not change them
+        check_case({"op": "tables"}, ctx)
     elif kind == "tables":
         check_case({"op": "tables"}, ctx)
     else:
